@@ -10,7 +10,7 @@ PLAN = {
         mc=[("MC_Core.cfg", {"MaxMsgs": 6}), ("MC_Remote.cfg", {"MaxActs": 3, "MaxMsgs": 5})],
         sim=[("MC_Core.cfg", [1], 1, {"MaxActs": 5, "MaxMsgs": 12, "MaxDepth": 4, "MaxBlocks": 4,
                                        "Feat": '{"finish", "task", "alog", "ctx", "run", "succ", "typed", "tb", "remote", "ext"}'})],
-        profiles=[dict(feat=ALLF, ndest=1, init=[1], maxlen=40, close=0.8, w_fin_ctx=0.0),
+        profiles=[dict(feat=ALLF, ndest=1, init=[1], maxlen=40, close=0.8, w_fin_ctx=0.0, shuffle=2),
                   dict(feat=ALLF | {"spawn"}, nctx=3, ndest=2, init=[1, 2], maxlen=40, close=0.8, w_fin_ctx=0.0)]),
     "C02": dict(
         mc=[("MC_Core.cfg", {"MaxMsgs": 6}), ("MC_Faults.cfg", {"MaxMsgs": 5, "MaxActs": 3}), ("MC_Conc.cfg", {"MaxMsgs": 5})],
@@ -37,6 +37,13 @@ PLAN = {
         mc=[("MC_Conc.cfg", {"MaxMsgs": 5, "MaxActs": 3})],
         sim=[("MC_Conc.cfg", [1], 1, {"NCtx": 4, "MaxActs": 5, "MaxMsgs": 10, "MaxBlocks": 3, "MaxDepth": 3, "Feat": '{"spawn", "ctx", "run", "finish"}'})],
         profiles=[dict(feat={"spawn", "ctx", "run", "finish", "task"}, nctx=4, ndest=1, init=[1], maxlen=50, weights={"Spawn": 4.0})]),
+    "C06": dict(
+        mc=[("MC_Remote.cfg", {"MaxActs": 3, "MaxMsgs": 5})],
+        sim=[("MC_Remote.cfg", [1], 1, {"NCtx": 3, "MaxActs": 5, "MaxMsgs": 10, "MaxIds": 3, "MaxDepth": 3, "MaxBlocks": 3,
+                                         "Feat": '{"remote", "spawn", "finish", "ctx", "preserve"}'})],
+        profiles=[dict(feat={"remote", "spawn", "finish", "ctx", "task", "preserve"}, nctx=4, ndest=1, init=[1], maxlen=45, shuffle=3, w_fin_ctx=0.0,
+                       weights={"SerializeId": 3.0, "ContinueTask": 4.0, "Spawn": 2.0, "Preserve": 3.0, "CallPreserved": 4.0})],
+        extra="c06_once"),
     "C07": dict(
         mc=[("MC_Faults.cfg", {"MaxMsgs": 5}), ("MC_Typed.cfg", {"MaxMsgs": 5})],
         sim=[("MC_Typed.cfg", [1, 2], 2, {"NDest": 2, "MaxActs": 3, "MaxMsgs": 8, "MaxFaults": 5, "InitDests": "D12",
@@ -53,7 +60,8 @@ PLAN = {
         mc=[("MC_Dests.cfg", {"NDest": 3, "MaxMsgs": 3})],
         sim=[("MC_Dests.cfg", [], 3, {"NDest": 3, "MaxActs": 2, "MaxMsgs": 9, "Cap": 3, "Feat": '{"dests", "dfault", "finish"}', "MaxFaults": 2})],
         profiles=[dict(feat={"dests", "finish", "task"}, ndest=4, init=[], maxlen=35, dfault=0.1, fault_file=True,
-                       weights={"AddDests": 1.0})]),
+                       weights={"AddDests": 1.0})],
+        extra="c12_concurrent"),
     "C13": dict(
         mc=[("MC_Typed.cfg", {"MaxMsgs": 5, "MaxActs": 3})],
         sim=[("MC_Typed.cfg", [1], 1, {"MaxActs": 4, "MaxMsgs": 9, "MaxFaults": 4, "MaxBlocks": 3, "Feat": '{"typed", "sfault", "succ", "finish", "ctx", "task"}'})],
@@ -126,6 +134,9 @@ def run(prop, tier):
             if verdicts:
                 rep.sample({"source": "random program", "ops": verdicts[0]["program"]["ops"][:25],
                             "first_events": verdicts[0]["trace"]["ev"][:6]})
+        if plan.get("extra"):
+            import checks_conc_extra
+            getattr(checks_conc_extra, plan["extra"])(rep, tier)
         rep.cov["exhaustive"] = False
         rep.cov["explanation"] = ("TLC exhaustive within the listed constants for the model; implementation conformance is by "
                                   "trace validation of sampled executions")
